@@ -107,8 +107,9 @@ def run(ctx):
     model = vlib.ocaml_build("c11", "Extract_C11.v", os.path.join(vlib.VERIF, "ocaml", "c11", "driver.ml"))
     exe_asan = udbl.build_harness("asan")
     exe = udbl.build_harness("plain")
-    tpl = udbl.workspace("plain")
     root = ctx.scratch("c11")
+    # private copy: the cached template is replaced when /repo changes during the run
+    tpl = vlib.copy_workspace(udbl.workspace("plain"), os.path.join(root, "tpl"))
     rnd = random.Random(ctx.seed)
     t_start = time.time()
 
